@@ -593,7 +593,8 @@ impl<'a, 'b> Gen<'a, 'b> {
                         None => "char".to_string(),
                     }
                 };
-                let boxed = typ != "char" && self.src.chance(p.p_boxed);
+                // (the built-in `char` may be boxed too: `x:*char` is `Box<char>`)
+                let boxed = (typ != "char" || self.src.chance(70)) && self.src.chance(p.p_boxed);
                 Expr::Ref { field: FieldName::Named(name), boxed, typ }
             }
             _ => Expr::Eoi,
@@ -636,7 +637,8 @@ impl<'a, 'b> Gen<'a, 'b> {
                         self.used_fields.push(name.clone());
                     }
                     let typ = if self.src.chance(p.p_char_field) { "char".to_string() } else { self.ref_target(c, false).unwrap_or_else(|| "char".to_string()) };
-                    let boxed = typ != "char" && self.src.chance(p.p_boxed);
+                    // (the built-in `char` may be boxed too: `x:*char` is `Box<char>`)
+                let boxed = (typ != "char" || self.src.chance(70)) && self.src.chance(p.p_boxed);
                     let r = Expr::Ref { field: FieldName::Named(name), boxed, typ };
                     if self.is_nonnull(&r) {
                         c.left = false;
@@ -806,7 +808,7 @@ impl<'a, 'b> Gen<'a, 'b> {
                 }
             }
         };
-        let boxed = t != "char" && self.src.chance(self.prof.p_boxed);
+        let boxed = (t != "char" || self.src.chance(70)) && self.src.chance(self.prof.p_boxed);
         let r = Expr::Ref { field: FieldName::Override, boxed, typ: t.clone() };
         let r = if allow_brackets && self.src.chance(self.prof.p_override_in_brackets) {
             if self.src.chance(128) {
